@@ -75,6 +75,8 @@ pub struct NetInner {
     send_plan: HashMap<(SocketAddr, usize), SendAnswer>,
     /// destinations towards which every send fails (host unreachable)
     fail_dst: Vec<SocketAddr>,
+    /// every send_to of a real node takes this long (virtual ms) before it completes
+    send_delay_ms: u64,
 }
 
 impl NetInner {
@@ -139,6 +141,10 @@ impl SocketTrait for SimSocket {
             answer
         };
         self.net.notify.notify_one();
+        let delay = self.net.inner.lock().unwrap().send_delay_ms;
+        if delay > 0 && answer == SendAnswer::Ok {
+            tokio::time::sleep(Duration::from_millis(delay)).await;
+        }
         match answer {
             SendAnswer::Ok => Ok(()),
             SendAnswer::Err => Err(io::Error::other("simulated send failure")),
@@ -270,6 +276,8 @@ pub struct Scenario {
     pub inject_menu: usize,
     /// every send_to towards one of these addresses fails
     pub fail_dst: Vec<SocketAddr>,
+    /// every send_to of a real node takes this long (virtual ms)
+    pub send_delay_ms: u64,
 }
 
 impl Scenario {
@@ -290,6 +298,7 @@ impl Scenario {
             injector: None,
             inject_menu: 0,
             fail_dst: vec![],
+            send_delay_ms: 0,
         }
     }
 }
@@ -397,6 +406,7 @@ async fn run_inner(sc: &Scenario, mut peers: Vec<Box<dyn Peer>>, chooser: &mut d
             send_calls: HashMap::new(),
             send_plan: sc.send_plan.iter().map(|(n, k, a)| ((sc.nodes[*n].addr, *k), *a)).collect(),
             fail_dst: sc.fail_dst.clone(),
+            send_delay_ms: sc.send_delay_ms,
         })),
         notify: Arc::new(Notify::new()),
     };
